@@ -176,6 +176,14 @@ def run_case(case, drv):
         pool_before = [list(r) for r in o.routes]
         # check_route on a copy, then add_route on another copy (both convert names in place)
         r1, r2 = list(route), list(route)
+        if all(isinstance(x, int) for x in route) and route:
+            # an index route may be handed over as any node sequence: list, tuple or numpy array
+            kind = ["list", "tuple", "array"][(idx + len(route)) % 3]
+            if kind == "tuple":
+                r1, r2 = tuple(route), tuple(route)
+            elif kind == "array":
+                r1, r2 = np.array(route), np.array(route)
+            res.features.append(f"route-container:{kind}")
         try:
             feas, cost, visits = o.check_route(r1)
             chk = f"ok:{1 if feas else 0}:{fs(F(cost))}"
@@ -189,8 +197,9 @@ def run_case(case, drv):
         # the caller may re-use its list afterwards: what was stored must not change with it
         pool_after = [list(r) for r in o.routes]
         costs_after = list(o.route_costs)
-        r2[:] = ["clobbered-by-caller"] * 3
-        r1[:] = [0]
+        if isinstance(r2, list):
+            r2[:] = ["clobbered-by-caller"] * 3
+            r1[:] = [0]
         if [list(r) for r in o.routes] != pool_after or list(o.route_costs) != costs_after:
             res.fail("route:aliases-caller-list", f"the stored pool changed when the caller re-used the list it had passed to add_route ({route})")
             o.routes[:] = [list(r) for r in pool_after]
